@@ -12,7 +12,7 @@ VARIANTS = [
       rule='C19-LOADER', key='entry:loadTestsFromModule'),
     M('C19', 'list-mode-still-runs-tests', E(TC, "            if self.check and not isinstance(test, unittest.suite.TestSuite):\n                cases.add('%s.%s' % (test.__class__.__module__,\n                                     test.__class__.__name__))\n            else:\n                newsuite.addTest(test)",
                                              "            if self.check and not isinstance(test, unittest.suite.TestSuite):\n                cases.add('%s.%s' % (test.__class__.__module__,\n                                     test.__class__.__name__))\n            newsuite.addTest(test)"),
-      rule='C19-CHECKMODE', key='check=True,suite=False'),
+      rule='C19-CHECKMODE', key='check=True,item=a ReferenceTestCase'),
     M('C19', 'long-option-overwrites-flags', E(TC, "                if option in ('-0', '--istagged'):\n                    check = True\n                else:\n                    tagged = True", "                check = option == '--istagged'\n                tagged = not check"),
       rule='C19-FLAGS', key='monotone'),
     M('C19', 'short-flag-sets-wrong-variable', E(TC, "                elif flag == '0':\n                    check = True", "                elif flag == '0':\n                    tagged = True"), rule='C19-FLAGS', key='wiring:check'),
